@@ -331,6 +331,87 @@ def history_case(ctx, h, nsteps, lines, reals):
         ctx.violate({'clause': problem[0]}, f'{problem[0]}: {problem[1]} (after `{log[-1] if log else ""}`)', {'history': h, 'edits': log})
 
 
+def override_pass(ctx):
+    """an operation re-declared in a subtype with another parameter list (EMF allows it): instances follow the nearest
+    declaration — whichever of the two was declared first, whenever the instance was created — and fall back to the
+    supertype's when the subtype's is removed"""
+    from pyecore import ecore as E
+    n = 60 if ctx.quick() else 1500
+    for h in range(n):
+        rng = common.sub_rng(ctx.seed, 'C20', 'override', h)
+        Base, Sub, Leaf = E.EClass('Base'), E.EClass('Sub'), E.EClass('Leaf')
+        nb, ns = rng.sample(range(0, 4), 2)
+        name = rng.choice(['op', 'run', 'class', 'import', 'compute'])
+        mn = name + '_' if keyword.iskeyword(name) else name
+        mk = lambda k: E.EOperation(name, params=[E.EParameter(f'p{i}', E.EInt, required=True) for i in range(k)])
+        steps = ['inherit', 'leaf', 'base-op', 'sub-op', 'inst']
+        rng.shuffle(steps)
+        made, log = {}, []
+        sub_op = None
+        problem = None
+
+        def expect(cls):
+            """parameters of the nearest declaration seen from cls, None when none is visible"""
+            chain = [cls] + supers_of(cls)
+            for k in chain:
+                for o in k.eOperations:
+                    if o.name == name:
+                        return len(o.eParameters)
+            return None
+
+        def judge(when):
+            for label, (o, cls) in made.items():
+                want = expect(cls)
+                has = hasattr(o, mn)
+                ctx.evaluations += 1
+                if has != (want is not None):
+                    return f'{when}: {label} instance: method {mn} {"present" if has else "missing"}, a declaration is {"visible" if want is not None else "not visible"}'
+                if want is None:
+                    continue
+                for k in range(0, 5):
+                    try:
+                        getattr(o, mn)(*([1] * k))
+                        out = 'returned'
+                    except NotImplementedError:
+                        out = 'stub'
+                    except TypeError:
+                        out = 'TypeError'
+                    except Exception as e:
+                        out = type(e).__name__
+                    ok = 'stub' if k == want else 'TypeError'
+                    if out != ok:
+                        return (f'{when}: {label} instance, nearest declaration takes {want} parameter(s): the call with {k} '
+                                f'argument(s) gave {out}, expected {ok}')
+            return None
+        try:
+            for st in steps + ['inst', 'remove-sub-op', 'inst']:
+                if st == 'inherit':
+                    Sub.eSuperTypes.append(Base)
+                elif st == 'leaf':
+                    Leaf.eSuperTypes.append(Sub)
+                elif st == 'base-op':
+                    Base.eOperations.append(mk(nb))
+                elif st == 'sub-op':
+                    sub_op = mk(ns)
+                    Sub.eOperations.append(sub_op)
+                elif st == 'remove-sub-op':
+                    Sub.eOperations.remove(sub_op)
+                else:
+                    for cls in (Base, Sub, Leaf):
+                        made[f'{cls.name}#{len(made)}'] = (cls(), cls)
+                log.append(st)
+                problem = judge(f'after {log}')
+                if problem:
+                    break
+        except Exception as e:
+            problem = f'after {log}, the next step raised {type(e).__name__}: {str(e)[:80]}'
+        ctx.nontriv(('override', h))
+        ctx.count('override/' + '>'.join(s_[0] for s_ in steps))
+        if problem:
+            ctx.violate({'clause': 'override'}, f'operation `{name}` declared with {nb} parameter(s) on Base and {ns} on Sub(Base), Leaf(Sub): {problem}',
+                        {'case': h, 'name': name, 'base_params': nb, 'sub_params': ns, 'steps': steps})
+
+
 def history_pass(ctx):
     n = 400 if ctx.quick() else 6000
     steps = 14 if ctx.quick() else 24
@@ -457,10 +538,11 @@ def run(ctx):
                 '2-4 classes (operations appended/inserted/extended, removed by remove/pop/del, keyword names, supertypes added/removed, '
                 'instances, behaviours) vs the declared operations of the class and its supertypes and vs the class model (`driver cls`); '
                 '(c) generated static class bodies (methods, static/class methods, dunder methods, functions without self, both '
-                'definition styles, a subclass) vs the statement and vs the model\'s `promote`. non-trivial & distinct = distinct '
+                'definition styles, a subclass) vs the statement; (d) an operation re-declared in a subtype with another parameter list, in every order of (inherit, declare on base, declare on subtype, instantiate), then removed from the subtype: instances follow the nearest declaration; (c) is also checked and vs the model\'s `promote`. non-trivial & distinct = distinct '
                 'declarations + histories with instances and operations + static bodies with at least one reflected method')
     signature_pass(ctx)
     history_pass(ctx)
+    override_pass(ctx)
     static_pass(ctx)
 
 
